@@ -80,6 +80,7 @@ func C16(c *Ctx) {
 	r.Rule("R16.2", "lifecycle tables: every governance FSM literal (role, dapp, proposal strategy in the repository; appchain, service, rule, node in the pinned bitxhub-core) has no transition whose source is GovernanceForbidden, dynamic destinations only on reject, an approved logout ends in forbidden, and no transition takes a forbidden object to anything but forbidden/unavailable (pre-check tables wider than the FSM are reported as information).")
 	r.Rule("R16.4", "cascade: in AppchainManager.Manage, on the approved branch, event freeze reaches the cross-invoke PauseChainService, activate reaches UnPauseChainService, logout reaches ClearChainService and ClearRule before any successful return, each with its result tested; the per-service loops of the service manager call the per-service operation on every iteration.")
 	r.Rule("R16.5", "service cache coherence: the executor's service cache (consulted before ledger state) is fed from SERVICE events only across a receipt-success edge; rollbackBlocks resets it on every path that rolled the ledger back; every service-manager entry that changes a service's status posts the SERVICE event before returning success.")
+	r.Rule("R16.7", "no verdict is dropped: for every checkTargetAvailability call of checkIBTP, at each accepting return that the call can reach, the returned target error has the call's error result among its origins (through the assignments and phis in between); a verdict that is only logged or lands in a shadowing variable lets a request to an unavailable or forbidden service through as a normal transaction.")
 	r.NotDecided = append(r.NotDecided, "composed behaviour over lifecycle histories; semantics of the looplab FSM engine (trusted)")
 
 	// ---- R16.1
@@ -130,6 +131,43 @@ func C16(c *Ctx) {
 			}
 			return false
 		}, "checkSourceAvailability == nil", "acceptance of a local-source request")
+		// R16.7: every verdict of checkTargetAvailability is the target error checkIBTP returns
+		nV := 0
+		for _, call := range core.Calls(check) {
+			if core.StaticCallee(call) != cta || call.Value() == nil {
+				continue
+			}
+			nV++
+			var verdict ssa.Value
+			for _, ref := range *call.Value().Referrers() {
+				if ex, ok := ref.(*ssa.Extract); ok && ex.Index == 1 {
+					verdict = ex
+				}
+			}
+			after := core.Reach([]core.Point{core.After(call)}, nil, nil)
+			bad := ""
+			nRet := 0
+			for _, ret := range core.Returns(check) {
+				if !after.Has(ret) || len(ret.Results) < 4 || !core.MayBeSuccess(check, ret, 3, core.ConvErrNil) {
+					continue
+				}
+				nRet++
+				has := false
+				for _, o := range core.RetOrigins(ret.Results[2]) {
+					if verdict != nil && core.Strip(o.V) == verdict {
+						has = true
+					}
+				}
+				if !has {
+					bad = c.P.Pos(ret.Pos())
+				}
+			}
+			key := fmt.Sprintf("checkIBTP: verdict of checkTargetAvailability #%d is the returned target error", nV)
+			r.Check(bad == "" && verdict != nil && nRet > 0, "R16.7", key, c.P.Pos(call.Pos()), fmt.Sprintf("the error result of the call is among the origins of the target error at %d accepting return(s)", nRet),
+				"the availability / permission verdict of this call does not reach the target error that checkIBTP returns at "+bad+" (discarded, or assigned to a shadowing variable): HandleIBTP sees no target error, so the request to an unavailable or forbidden service begins as a normal transaction instead of being failed")
+		}
+		r.Floor("R16.7", "checkTargetAvailability calls in checkIBTP", nV, 1)
+
 		// isFailed = targetErr != nil
 		okFlag := false
 		for _, call := range core.Calls(handle) {
